@@ -709,11 +709,28 @@ impl Gen for StreamingBlob {
             data.push(fill.wrapping_add(data.len() as u8));
         }
         g.blobs.push(data.clone());
-        // 1..3 frames
-        let cut = if data.len() > 1 && g.t.bool() { g.t.below(data.len()) } else { data.len() };
-        let (a, b) = data.split_at(cut);
-        let frames: Vec<Result<Bytes, std::io::Error>> =
-            [Bytes::copy_from_slice(a), Bytes::copy_from_slice(b)].into_iter().filter(|f| !f.is_empty()).map(Ok).collect();
+        // 0..4 data frames; a stream may also yield zero-length chunks anywhere (they carry no octets and end nothing)
+        let mut frames: Vec<Result<Bytes, std::io::Error>> = Vec::new();
+        let mut rest: &[u8] = &data;
+        for _ in 0..3 {
+            if g.t.chance(40) {
+                frames.push(Ok(Bytes::new()));
+            }
+            if rest.len() > 1 && g.t.bool() {
+                let cut = g.t.below(rest.len());
+                let (a, b) = rest.split_at(cut);
+                if !a.is_empty() {
+                    frames.push(Ok(Bytes::copy_from_slice(a)));
+                }
+                rest = b;
+            }
+        }
+        if !rest.is_empty() {
+            frames.push(Ok(Bytes::copy_from_slice(rest)));
+        }
+        if g.t.chance(24) {
+            frames.push(Ok(Bytes::new()));
+        }
         StreamingBlob::wrap(futures::stream::iter(frames))
     }
 }
